@@ -52,7 +52,7 @@ static void judge(bsx::Ctx& c, const std::string& sig, const Probe& p, size_t in
 	else if (p.peak > budget) c.violation(sig + "/out=excessive_memory", "peak " + std::to_string(p.peak) + " live bytes for an input of " + std::to_string(inputLen) + " bytes (budget " + std::to_string(budget) + ") | " + info);
 }
 // fatal-prone cases run in a forked child; a fatal kind becomes a violation with the given signature
-static void judgeIsolated(bsx::Ctx& c, const std::string& sig, size_t inputLen, const std::string& info, const std::function<Probe()>& run, double timeout = 5) {
+static void judgeIsolated(bsx::Ctx& c, const std::string& sig, size_t inputLen, const std::string& info, const std::function<Probe()>& run, double timeout = 45) {
 	std::string r = c.isolate([&] { Probe p = run(); return p.cls + "\t" + std::to_string(p.peak) + "\t" + std::to_string(p.largest) + "\t" + std::to_string(p.refused); }, timeout);
 	if (r.rfind("ok:", 0) != 0) { c.outcome("fatal:" + r); c.violation(sig + "/out=" + r, "the process did not survive (" + r + ") | " + info); return; }
 	Probe p; size_t t1 = r.find('\t'), t2 = r.find('\t', t1 + 1), t3 = r.find('\t', t2 + 1);
@@ -178,7 +178,7 @@ static void body(bsx::Ctx& c) {
 		case 9: in = std::string(std::min<size_t>(d, 1u << 16), '9'); run = [&] { return probe([&] { (void)BS::Convert::To<int64_t>(in); (void)BS::Convert::To<double>(in); (void)BS::Convert::To<std::chrono::seconds>("PT" + in + "S"); }); }; break;
 		default: in = "a,b\r\n" + std::string(d, 'x') + ",1\r\n"; run = [&] { return loadAs<tl::CS, std::vector<Row>>(in, true, lib::opts()); }; break;
 		}
-		judgeIsolated(c, sig, in.size(), "input bytes=" + std::to_string(in.size()), run, thorough ? 40 : 20);
+		judgeIsolated(c, sig, in.size(), "input bytes=" + std::to_string(in.size()), run, thorough ? 150 : 90);
 		c.sample(sig + " input=" + std::to_string(in.size()) + " bytes");
 	} else {
 		// ---- converters: all strings up to length 3 (thorough 4) over the conversion alphabet, three character widths
